@@ -295,6 +295,29 @@ def kwarg(call: ast.Call, name: str) -> Optional[ast.expr]:
   return None
 
 
+def kwarg_deep(call: ast.Call, name: str, f) -> Optional[ast.expr]:
+  """kwarg(call, name), also when the keyword travels in a dict that was put
+  together beforehand: `kw = dict(name=v, ...)` / `kw = {'name': v}` followed
+  by `g(**kw)` (the dict held in a single-assignment local of `f`)."""
+  v = kwarg(call, name)
+  if v is not None or f is None or f.is_lambda:
+    return v
+  from fdlstatic import roles  # pylint: disable=g-import-not-at-top
+  for k in call.keywords:
+    if k.arg is None:
+      d = roles.deref(f, k.value) if isinstance(k.value, ast.Name) else k.value
+      if isinstance(d, ast.Call) and isinstance(
+          d.func, ast.Name) and d.func.id == 'dict' and not d.args:
+        for k2 in d.keywords:
+          if k2.arg == name:
+            return k2.value
+      elif isinstance(d, ast.Dict):
+        for dk, dv in zip(d.keys, d.values):
+          if isinstance(dk, ast.Constant) and dk.value == name:
+            return dv
+  return None
+
+
 def arg(call: ast.Call, idx: int, name: str = None) -> Optional[ast.expr]:
   if len(call.args) > idx and not any(
       isinstance(a, ast.Starred) for a in call.args[:idx + 1]):
